@@ -11,30 +11,15 @@ from symex import values as V
 from vlib.api import all_of, harness
 
 from . import refs
+from . import secctx
 from .world import seq_eq
 
 META = dict(assumptions=[
-    "security context stub: get_empty_trailer(pad) returns a PKT_PRIVACY trailer with a zero auth value of the configured signature size; wrap(header, body, trailer, "
-    "sign_header) records its arguments and returns header | Seal(body) | trailer | Sig with fresh symbols of the same sizes",
+    "ideal security context at the pyspnego boundary (the repository's AuthenticationProvider runs on top of it): query_message_sizes().header is the configured signature "
+    "size; wrap_iov records its buffers and returns Seal(body) and a signature as fresh symbols of the same sizes",
 ])
 P = "C13"
 ISD_KEY = _gkdi.ISD_KEY
-
-
-class Auth:
-    def __init__(self, c, sig):
-        self.c, self.sig, self.calls = c, sig, []
-        self.provider = _pdu.SecurityProvider.RPC_C_AUTHN_GSS_NEGOTIATE
-
-    def get_empty_trailer(self, pad_length):
-        return _pdu.SecTrailer(self.provider, _pdu.AuthenticationLevel.RPC_C_AUTHN_LEVEL_PKT_PRIVACY, pad_length, 0, b"\x00" * self.sig)
-
-    def wrap(self, header, body, trailer, sign_header):
-        sealed = self.c.bytes("sealed", len(body))
-        sig = self.c.bytes("wsig", self.sig)
-        self.calls.append((header, body, trailer, sign_header))
-        self.sealed, self.wsig = sealed, sig
-        return refs.cat(header, sealed, trailer, sig)
 
 
 def _lens(tier):
@@ -64,7 +49,8 @@ VT = _client._VERIFICATION_TRAILER
          must_reach=("frag_len/auth_len", "vt at next 4-byte boundary", "trailer 16-aligned, pad_length = padding added", "exactly header|stub+pad|trailer handed to wrap",
                      "wire = header | sealed | trailer | signature"))
 def framing(c, L, vt, sig, sign):
-    auth = Auth(c, sig)
+    ctx = secctx.IdealContext(c, sig)
+    auth = secctx.provider(ctx)
     client = rc.RpcClient(auth)
     client._sign_header = sign
     stub = c.bytes("stub", L)
@@ -78,13 +64,18 @@ def framing(c, L, vt, sig, sign):
     body_len = L + p4 + len(vt_bytes)
     p16 = -body_len % 16
     c.check(all_of([n == 24 + body_len + p16 + 8 + sig, wire[8] == (n & 0xFF), wire[9] == (n >> 8), wire[10] == (sig & 0xFF), wire[11] == (sig >> 8)]), "frag_len/auth_len")
-    (h, b, t, sh), = auth.calls
+    (call,) = ctx.wrap_calls
+    (ht, h), (bt, b), (tt, t), (st, _) = call["bufs"]
+    BT = secctx.BT
+    want_type = BT.sign_only if sign else BT.data_readonly
+    c.check(ht == want_type and tt == want_type and bt == BT.data and st == BT.header and call["encrypt"] is True,
+            "header and trailer are signed exactly when header signing is on; the body is sealed")
     c.check(all_of([seq_eq(b[:L], stub), seq_eq(b[L : L + p4], bytes(p4)), seq_eq(b[L + p4 : L + p4 + len(vt_bytes)], vt_bytes)]), "vt at next 4-byte boundary")
     c.check(all_of([len(b) == body_len + p16, len(b) % 16 == 0, seq_eq(b[body_len:], bytes(p16)), t[2] == p16, p16 < 16]), "trailer 16-aligned, pad_length = padding added")
     ref_hdr = refs.cat(bytes([5, 0, 0, 3, 0x10, 0, 0, 0]), refs.le(n, 2), refs.le(sig, 2), refs.le(1, 4), refs.le(len(b), 4), refs.le(ctx_id, 2), refs.le(opnum, 2))
-    c.check(all_of([seq_eq(h, ref_hdr), seq_eq(t, bytes([9, 6, p16, 0, 0, 0, 0, 0])), sh is sign, len(h) == 24, len(t) == 8]), "exactly header|stub+pad|trailer handed to wrap")
-    c.check(all_of([seq_eq(wire[:24], h), seq_eq(wire[24 : 24 + len(b)], auth.sealed), seq_eq(wire[24 + len(b) : 32 + len(b)], t),
-                    seq_eq(wire[32 + len(b) :], auth.wsig), n == 32 + len(b) + sig]), "wire = header | sealed | trailer | signature")
+    c.check(all_of([seq_eq(h, ref_hdr), seq_eq(t, bytes([9, 6, p16, 0, 0, 0, 0, 0])), len(h) == 24, len(t) == 8]), "exactly header|stub+pad|trailer handed to wrap")
+    c.check(all_of([seq_eq(wire[:24], h), seq_eq(wire[24 : 24 + len(b)], call["sealed"]), seq_eq(wire[24 + len(b) : 32 + len(b)], t),
+                    seq_eq(wire[32 + len(b) :], call["sig"]), n == 32 + len(b) + sig]), "wire = header | sealed | trailer | signature")
     return n
 
 
